@@ -598,6 +598,11 @@ func (c *Client) updateLightClientIfNeededTo(ctx context.Context, height *int64)
 	)
 	if height == nil {
 		l, err = c.lc.Update(ctx, time.Now())
+		if err == nil && l == nil {
+			// Update returns no light block when the primary has nothing newer
+			// than the latest trusted one: that one is the latest then.
+			l, err = c.lc.TrustedLightBlock(0)
+		}
 	} else {
 		l, err = c.lc.VerifyLightBlockAtHeight(ctx, *height, time.Now())
 	}
